@@ -33,4 +33,4 @@ package runningstatus
 //@ ensures [P:C03] typeof(result) == typeid(*smfwriter) && asptr(result, smfwriter).status == 0 && fresh(asptr(result, smfwriter))
 
 //@ func NewSMFReader
-//@ ensures [P:C02] typeof(result) == typeid(*smfreader) && asptr(result, smfreader).reader.status == 0
+//@ ensures [P:C02] typeof(result) == typeid(*smfreader) && asptr(result, smfreader).reader.status == 0 && fresh(asptr(result, smfreader))
